@@ -216,4 +216,608 @@ theorem lin_incrRowCol {c : Cfg} (h : c.WF) {idx : Idx} (hi : idx.InRange c) {n 
     simp only
     rw [← hdm, Nat.mul_comm]
 
+/-! ### the storage -/
+
+/-- contents of row `r` of column memory `k` -/
+def cell (mem : List (List Nat)) (k r : Nat) : Nat := (mem.getD k []).getD r 0
+
+/-- contents of the cell at linear position `p` (column `p mod col_count`, row `p / col_count`) -/
+def cellLin (c : Cfg) (mem : List (List Nat)) (p : Nat) : Nat := cell mem (p % c.cols) (p / c.cols)
+
+/-- the storage after the edge -/
+def memAfter (c : Cfg) (s : State) (i : In) : List (List Nat) := (List.range c.cols).map (colAfter c s i)
+
+/-- `col_count` memories of `row_count` rows -/
+structure Shape (c : Cfg) (mem : List (List Nat)) : Prop where
+  len : mem.length = c.cols
+  col : ∀ k, k < c.cols → (mem.getD k []).length = c.rows
+
+/-- environment hypothesis on the arguments of `write`: `data` has `write_width` entries, `count` is in the
+    range of the layout, and `count ≤ max_count` when `write_max_count` is configured (asserted at fifo.py:331) -/
+def In.WF (c : Cfg) (i : In) : Prop :=
+  ∀ a, i.write = some a → a.data.length = c.ww ∧ a.count ≤ c.ww ∧ (c.useMax = true → a.count ≤ a.maxCount)
+
+/-- the data words offered to `write` in this cycle -/
+def In.wdata (i : In) : List Nat :=
+  match i.write with
+  | some a => a.data
+  | none => []
+
+theorem step_mem (c : Cfg) (s : State) (i : In) : (step c s i).1.mem = memAfter c s i := by
+  unfold step memAfter; by_cases hc : i.clear = true <;> simp [hc]
+
+theorem getD_memAfter {c : Cfg} (s : State) (i : In) {k : Nat} (hk : k < c.cols) :
+    (memAfter c s i).getD k [] = colAfter c s i k := by
+  simp [memAfter, List.getD_eq_getElem?_getD, List.getElem?_range hk]
+
+theorem colAfter_length {c : Cfg} (s : State) (i : In) (k : Nat) :
+    (colAfter c s i k).length = (s.mem.getD k []).length := by
+  unfold colAfter
+  split
+  · split <;> simp
+  · rfl
+
+theorem shape_memAfter {c : Cfg} {s : State} (i : In) (hs : Shape c s.mem) : Shape c (memAfter c s i) := by
+  constructor
+  · simp [memAfter]
+  · intro k hk
+    rw [getD_memAfter s i hk, colAfter_length, hs.col k hk]
+
+/-- rotated index: which entry of `ens`/`data` port `k` gets -/
+def rotIdx (c : Cfg) (s : State) (k : Nat) : Nat :=
+  if s.widx.col ≤ k then k - s.widx.col else k + c.cols - s.widx.col
+
+theorem getD_wEn {c : Cfg} {s : State} (a : WArg) {k : Nat} (hwc : s.widx.col < c.cols) (hk : k < c.cols) :
+    (wEn c s a).getD k false = decide (rotIdx c s k < a.count) := by
+  unfold wEn
+  rw [getD_rotLeft _ _ (by simpa using hwc) (by simpa using hk)]
+  simp only [List.length_map, List.length_range]
+  have hj : rotIdx c s k < c.cols := by unfold rotIdx; split <;> omega
+  unfold rotIdx at *
+  simp [List.getD_eq_getElem?_getD, List.getElem?_range hj]
+
+theorem getD_wData {c : Cfg} {s : State} (a : WArg) {k : Nat} (hlen : a.data.length = c.ww)
+    (hwc : s.widx.col < c.cols) (hk : k < c.cols) (hj : rotIdx c s k < a.data.length) :
+    (wData c s a).getD k 0 = a.data.getD (rotIdx c s k) 0 := by
+  have hww := c.ww_le_cols
+  have hl : (a.data ++ List.replicate (c.cols - c.ww) 0).length = c.cols := by simp [hlen]; omega
+  unfold wData
+  rw [getD_rotLeft _ _ (by rw [hl]; exact hwc) (by rw [hl]; exact hk), hl]
+  unfold rotIdx at hj
+  simp only [List.getD_eq_getElem?_getD, List.getElem?_append]
+  unfold rotIdx
+  rw [if_pos hj]
+
+theorem writeCount_of_not_runs {c : Cfg} {s : State} {i : In} (h : writeRuns c s i = false) :
+    writeCount c s i = 0 := by
+  unfold writeCount; split <;> simp [h]
+
+theorem memAfter_of_not_runs {c : Cfg} {s : State} {i : In} (h : writeRuns c s i = false) (k : Nat) :
+    colAfter c s i k = s.mem.getD k [] := by
+  unfold colAfter; split <;> simp [h]
+
+/-- The write data path: after the edge, the cell `o` places after the write pointer holds the `o`-th data
+    word if `o < write_count`, and what it held before otherwise. -/
+theorem cellLin_memAfter {c : Cfg} (h : c.WF) {s : State} {i : In} (hi : i.WF c)
+    (hw : s.widx.InRange c) (hs : Shape c s.mem) {o : Nat} (ho : o < c.cap) :
+    cellLin c (memAfter c s i) ((lin c s.widx + o) % c.cap) =
+      if o < writeCount c s i then i.wdata.getD o 0 else cellLin c s.mem ((lin c s.widx + o) % c.cap) := by
+  have hC := h.cols_pos
+  have hkC : ((lin c s.widx + o) % c.cap) % c.cols < c.cols := Nat.mod_lt _ hC
+  have hrR : ((lin c s.widx + o) % c.cap) / c.cols < c.rows := by
+    rw [Nat.div_lt_iff_lt_mul hC, Nat.mul_comm]; exact Nat.mod_lt _ h.cap_pos
+  unfold cellLin cell
+  rw [getD_memAfter s i hkC]
+  by_cases hrun : writeRuns c s i = true
+  · -- the write executes
+    cases hwa : i.write with
+    | none => simp [writeRuns, hwa] at hrun
+    | some a =>
+      obtain ⟨hlen, hcnt, _⟩ := hi a hwa
+      have hww := c.ww_le_cols
+      have hwc : writeCount c s i = a.count := by simp [writeCount, hwa, hrun]
+      have hwd : i.wdata = a.data := by simp [In.wdata, hwa]
+      rw [hwc, hwd]
+      have hcol : colAfter c s i ((lin c s.widx + o) % c.cap % c.cols) =
+          if (wEn c s a).getD ((lin c s.widx + o) % c.cap % c.cols) false
+          then (s.mem.getD ((lin c s.widx + o) % c.cap % c.cols) []).set
+            (portAddr c s.widx ((lin c s.widx + o) % c.cap % c.cols))
+            ((wData c s a).getD ((lin c s.widx + o) % c.cap % c.cols) 0)
+          else s.mem.getD ((lin c s.widx + o) % c.cap % c.cols) [] := by
+        simp [colAfter, hwa, hrun]
+      rw [hcol, getD_wEn a hw.2 hkC]
+      by_cases hoc : o < a.count
+      · -- one of the cells being written
+        obtain ⟨p1, p2⟩ := pos_col_row h hw (o := o) (by omega)
+        have hj : rotIdx c s ((lin c s.widx + o) % c.cap % c.cols) = o := by
+          rw [p1]; unfold rotIdx; have := hw.2; split <;> split <;> omega
+        rw [hj, if_pos hoc, decide_eq_true hoc, if_pos rfl, ← p2]
+        rw [getD_wData a hlen hw.2 hkC (by rw [hj]; omega), hj]
+        rw [List.getD_eq_getElem?_getD, List.getElem?_set]
+        rw [if_pos rfl, if_pos (by rw [hs.col _ hkC]; exact hrR)]
+        rfl
+      · rw [if_neg hoc]
+        by_cases hjc : rotIdx c s ((lin c s.widx + o) % c.cap % c.cols) < a.count
+        · -- the column is written, but in another row
+          rw [decide_eq_true hjc, if_pos rfl]
+          have hjC : rotIdx c s ((lin c s.widx + o) % c.cap % c.cols) < c.cols := by omega
+          obtain ⟨p1, p2⟩ := pos_col_row h hw hjC
+          have hk' : (lin c s.widx + rotIdx c s ((lin c s.widx + o) % c.cap % c.cols)) % c.cap % c.cols
+              = (lin c s.widx + o) % c.cap % c.cols := by
+            rw [p1]; unfold rotIdx; have := hw.2; split <;> split <;> omega
+          have hne : portAddr c s.widx ((lin c s.widx + o) % c.cap % c.cols) ≠ (lin c s.widx + o) % c.cap / c.cols := by
+            intro heq
+            rw [hk'] at p2
+            have e := Nat.div_add_mod ((lin c s.widx + o) % c.cap) c.cols
+            have e' := Nat.div_add_mod ((lin c s.widx + rotIdx c s ((lin c s.widx + o) % c.cap % c.cols)) % c.cap) c.cols
+            rw [hk', p2, heq] at e'
+            have := add_mod_inj (by omega) ho (e'.symm.trans e)
+            omega
+          rw [List.getD_eq_getElem?_getD, List.getElem?_set, if_neg hne, ← List.getD_eq_getElem?_getD]
+        · rw [decide_eq_false hjc]; rfl
+  · have hrun' : writeRuns c s i = false := by simpa using hrun
+    rw [writeCount_of_not_runs hrun', memAfter_of_not_runs hrun']
+    simp
+
+/-! ### invariant and abstraction -/
+
+structure Inv (c : Cfg) (s : State) : Prop where
+  ridx : s.ridx.InRange c
+  widx : s.widx.InRange c
+  lvl : s.level ≤ c.cap
+  ptr : lin c s.widx = (lin c s.ridx + s.level) % c.cap
+  shape : Shape c s.mem
+  rdlen : s.rd.length = c.cols
+  /-- the read-port registers hold the rows addressed through `read_idx` (fifo.py:299-300) -/
+  rdval : 0 < s.level → ∀ k, k < c.cols → s.rd.getD k 0 = cell s.mem k (portAddr c s.ridx k)
+
+/-- the queue a state stands for: `level` cells starting at the read pointer, in linear order modulo the capacity -/
+def abs (c : Cfg) (s : State) : List Nat :=
+  (List.range s.level).map fun j => cellLin c s.mem ((lin c s.ridx + j) % c.cap)
+
+@[simp] theorem abs_length (c : Cfg) (s : State) : (abs c s).length = s.level := by simp [abs]
+
+theorem abs_getElem? (c : Cfg) (s : State) {j : Nat} (hj : j < s.level) :
+    (abs c s)[j]? = some (cellLin c s.mem ((lin c s.ridx + j) % c.cap)) := by
+  simp [abs, List.getElem?_range hj]
+
+theorem inv_init {c : Cfg} (h : c.WF) : Inv c (init c) := by
+  have hC := h.cols_pos
+  have hR := h.rows_pos
+  refine ⟨⟨hR, hC⟩, ⟨hR, hC⟩, Nat.zero_le _, ?_, ⟨by simp [init], ?_⟩, by simp [init], ?_⟩
+  · simp [init, lin]
+  · intro k hk
+    simp [init, List.getD_eq_getElem?_getD, hk]
+  · intro h0; simp [init] at h0
+
+theorem abs_init (c : Cfg) : abs c (init c) = [] := by simp [abs, init]
+
+theorem remaining_eq {c : Cfg} {s : State} (hl : s.level ≤ c.cap) : remaining c s = c.cap - s.level := by
+  unfold remaining lvlBits
+  have hb := lt_two_pow_bitsFor c.cap
+  have e : c.cap + 2 ^ bitsFor c.cap - s.level = (c.cap - s.level) + 2 ^ bitsFor c.cap := by omega
+  rw [e, Nat.add_mod_right, Nat.mod_eq_of_lt (by omega)]
+
+theorem portAddr_lt {c : Cfg} (h : c.WF) {idx : Idx} (hi : idx.InRange c) (k : Nat) : portAddr c idx k < c.rows := by
+  unfold portAddr
+  split
+  · exact hi.1
+  · rw [modIncr_eq h.rows_pos hi.1]; exact incRow_lt hi.1
+
+/-- transparent synchronous read port: the register gets the row as it is *after* this cycle's write -/
+theorem rdAfter_eq {c : Cfg} (h : c.WF) {s : State} (i : In) (hw : s.widx.InRange c) (hs : Shape c s.mem)
+    {k : Nat} (hk : k < c.cols) :
+    rdAfter c s i k = cell (memAfter c s i) k (portAddr c (nextRidx c s i) k) := by
+  unfold cell
+  rw [getD_memAfter s i hk]
+  unfold rdAfter colAfter
+  cases hwa : i.write with
+  | none => rfl
+  | some a =>
+    simp only
+    by_cases h1 : (writeRuns c s i && (wEn c s a).getD k false) = true
+    · rw [h1]
+      simp only [Bool.true_and, if_true]
+      rw [List.getD_eq_getElem?_getD (l := List.set _ _ _), List.getElem?_set]
+      have hlt : portAddr c s.widx k < (s.mem.getD k []).length := by rw [hs.col k hk]; exact portAddr_lt h hw k
+      by_cases h2 : portAddr c s.widx k = portAddr c (nextRidx c s i) k
+      · rw [if_pos h2, if_pos hlt]; simp [h2]
+      · rw [if_neg h2]; simp [h2, List.getD_eq_getElem?_getD]
+    · have h1' : (writeRuns c s i && (wEn c s a).getD k false) = false := by simpa using h1
+      rw [h1']; simp
+
+theorem head_getElem? {c : Cfg} (h : c.WF) {s : State} (hI : Inv c s) (hl : 0 < s.level) {j : Nat} (hj : j < c.rw) :
+    (head c s)[j]? = some (cellLin c s.mem ((lin c s.ridx + j) % c.cap)) := by
+  have hrw := c.rw_le_cols
+  have hjC : j < c.cols := by omega
+  obtain ⟨p1, p2⟩ := pos_col_row h hI.ridx hjC
+  have hk : (lin c s.ridx + j) % c.cap % c.cols < c.cols := Nat.mod_lt _ h.cols_pos
+  have e := getD_rotRight 0 s.rd (off := s.ridx.col) (i := j) (by rw [hI.rdlen]; exact hjC)
+  rw [hI.rdlen, ← p1, hI.rdval hl _ hk, ← p2] at e
+  unfold head
+  rw [List.getElem?_take, if_pos hj]
+  have hlen : j < (rotRight 0 s.rd s.ridx.col).length := by simp [hI.rdlen]; exact hjC
+  rw [List.getD_eq_getElem?_getD, List.getElem?_eq_getElem hlen] at e
+  rw [List.getElem?_eq_getElem hlen]
+  simp only [Option.getD_some] at e
+  rw [e]; rfl
+
+theorem head_length {c : Cfg} {s : State} (hI : Inv c s) : (head c s).length = c.rw := by
+  have := c.rw_le_cols
+  simp [head, hI.rdlen]; omega
+
+/-- the first `n ≤ min(level, read_width)` words of `head` are the `n` oldest elements -/
+theorem head_take {c : Cfg} (h : c.WF) {s : State} (hI : Inv c s) {n : Nat} (hn : n ≤ s.level) (hr : n ≤ c.rw) :
+    (head c s).take n = (abs c s).take n := by
+  apply List.ext_getElem?
+  intro j
+  rw [List.getElem?_take, List.getElem?_take]
+  split
+  · rw [head_getElem? h hI (by omega) (by omega), abs_getElem? c s (by omega)]
+  · rfl
+
+/-! ### one cycle -/
+
+theorem step_noclear {c : Cfg} {s : State} {i : In} (hc : i.clear = false) :
+    (step c s i).1 =
+      { ridx := nextRidx c s i,
+        widx := if writeRuns c s i then incrRowCol c s.widx (writeCount c s i) else s.widx,
+        level := (s.level - readCount c s i + writeCount c s i) % 2 ^ lvlBits c,
+        mem := memAfter c s i,
+        rd := (List.range c.cols).map (rdAfter c s i) } := by
+  simp [step, hc, memAfter]
+
+theorem step_clear {c : Cfg} {s : State} {i : In} (hc : i.clear = true) :
+    (step c s i).1 =
+      { ridx := ⟨0, 0⟩, widx := ⟨0, 0⟩, level := 0, mem := memAfter c s i,
+        rd := (List.range c.cols).map (rdAfter c s i) } := by
+  simp [step, hc, memAfter]
+
+/-- `read_count = min(count, level, read_width)` (0 if `read` is not called; if the queue is empty it is 0 anyway) -/
+theorem readCount_eq (c : Cfg) (s : State) (i : In) :
+    readCount c s i = match i.read with
+      | some n => min n (min s.level c.rw)
+      | none => 0 := by
+  unfold readCount readReady readAvail
+  cases i.read with
+  | none => rfl
+  | some n =>
+    simp only
+    by_cases h0 : s.level = 0
+    · simp [h0]
+    · have : (s.level != 0) = true := by simpa using h0
+      rw [this]; simp only [if_true]
+      split <;> split <;> omega
+
+theorem readCount_le (c : Cfg) (s : State) (i : In) : readCount c s i ≤ s.level ∧ readCount c s i ≤ c.rw := by
+  rw [readCount_eq]; split <;> omega
+
+theorem incrRowCol_zero {c : Cfg} {idx : Idx} (h : idx.col < c.cols) : incrRowCol c idx 0 = idx := by
+  unfold incrRowCol
+  rw [if_neg (by omega)]
+  cases idx; rfl
+
+theorem nextRidx_eq {c : Cfg} {s : State} (i : In) (h : s.ridx.col < c.cols) :
+    nextRidx c s i = incrRowCol c s.ridx (readCount c s i) := by
+  unfold nextRidx
+  by_cases hr : readRuns c s i = true
+  · rw [if_pos hr]
+  · rw [if_neg hr]
+    have : readCount c s i = 0 := by
+      unfold readRuns at hr
+      unfold readCount
+      cases hrd : i.read with
+      | none => rfl
+      | some n => simp [hrd] at hr; simp [hr]
+    rw [this, incrRowCol_zero h]
+
+theorem widx_next_eq {c : Cfg} {s : State} (i : In) (h : s.widx.col < c.cols) :
+    (if writeRuns c s i then incrRowCol c s.widx (writeCount c s i) else s.widx)
+      = incrRowCol c s.widx (writeCount c s i) := by
+  by_cases hr : writeRuns c s i = true
+  · rw [if_pos hr]
+  · rw [if_neg hr, writeCount_of_not_runs (by simpa using hr), incrRowCol_zero h]
+
+/-- an executed write fits: `write_count ≤ remaining` and `write_count ≤ write_width` -/
+theorem writeCount_le {c : Cfg} {s : State} {i : In} (hi : i.WF c) (hl : s.level ≤ c.cap) :
+    writeCount c s i ≤ c.cap - s.level ∧ writeCount c s i ≤ c.ww ∧ writeCount c s i ≤ i.wdata.length := by
+  by_cases hrun : writeRuns c s i = true
+  · cases hwa : i.write with
+    | none => simp [writeRuns, hwa] at hrun
+    | some a =>
+      obtain ⟨hlen, hcnt, hmax⟩ := hi a hwa
+      have hwc : writeCount c s i = a.count := by simp [writeCount, hwa, hrun]
+      have hwd : i.wdata = a.data := by simp [In.wdata, hwa]
+      rw [hwc, hwd, hlen]
+      refine ⟨?_, hcnt, hcnt⟩
+      simp only [writeRuns, hwa, writeValid, Bool.and_eq_true, decide_eq_true_eq] at hrun
+      have hv := hrun.2
+      rw [remaining_eq hl] at hv
+      by_cases hm : c.useMax = true
+      · rw [if_pos hm] at hv; have := hmax hm; omega
+      · rw [if_neg hm] at hv; exact hv
+  · rw [writeCount_of_not_runs (by simpa using hrun)]; omega
+
+theorem step_inv {c : Cfg} (h : c.WF) {s : State} {i : In} (hI : Inv c s) (hi : i.WF c) : Inv c (step c s i).1 := by
+  have hshape := shape_memAfter i hI.shape
+  have hrd : ∀ k, k < c.cols → ((List.range c.cols).map (rdAfter c s i)).getD k 0 = rdAfter c s i k := by
+    intro k hk; simp [List.getD_eq_getElem?_getD, List.getElem?_range hk]
+  by_cases hc : i.clear = true
+  · rw [step_clear hc]
+    refine ⟨⟨h.rows_pos, h.cols_pos⟩, ⟨h.rows_pos, h.cols_pos⟩, Nat.zero_le _, ?_, hshape, by simp, ?_⟩
+    · simp [lin]
+    · intro h0; simp at h0
+  · have hc' : i.clear = false := by simpa using hc
+    obtain ⟨r1, r2⟩ := readCount_le c s i
+    obtain ⟨w1, w2, _⟩ := writeCount_le hi hI.lvl
+    have hrw := c.rw_le_cols
+    have hww := c.ww_le_cols
+    obtain ⟨ri, rl⟩ := lin_incrRowCol h hI.ridx (n := readCount c s i) (by omega)
+    obtain ⟨wi, wl⟩ := lin_incrRowCol h hI.widx (n := writeCount c s i) (by omega)
+    have hb := lt_two_pow_bitsFor c.cap
+    have hlv := hI.lvl
+    rw [step_noclear hc', widx_next_eq i hI.widx.2]
+    have hlev : (s.level - readCount c s i + writeCount c s i) % 2 ^ lvlBits c
+        = s.level - readCount c s i + writeCount c s i := Nat.mod_eq_of_lt (by unfold lvlBits; omega)
+    refine ⟨?_, wi, ?_, ?_, hshape, by simp, ?_⟩
+    · rw [nextRidx_eq i hI.ridx.2]; exact ri
+    · simp only [hlev]; omega
+    · simp only [hlev]
+      rw [nextRidx_eq i hI.ridx.2, wl, rl, hI.ptr, Nat.mod_add_mod, Nat.mod_add_mod]
+      congr 1; omega
+    · intro _ k hk
+      simp only
+      rw [hrd k hk, rdAfter_eq h i hI.widx hI.shape hk]
+
+/-! ### the abstraction commutes with a cycle -/
+
+/-- contents, after the edge, of the cell `rc + j` places after the old read pointer: an old element that is
+    still queued, or one of the words written in this cycle -/
+theorem cell_next {c : Cfg} (h : c.WF) {s : State} {i : In} (hI : Inv c s) (hi : i.WF c) {j : Nat}
+    (hj : j < s.level - readCount c s i + writeCount c s i) :
+    cellLin c (memAfter c s i) ((lin c s.ridx + (readCount c s i + j)) % c.cap) =
+      if j < s.level - readCount c s i
+      then cellLin c s.mem ((lin c s.ridx + (readCount c s i + j)) % c.cap)
+      else i.wdata.getD (j - (s.level - readCount c s i)) 0 := by
+  obtain ⟨r1, r2⟩ := readCount_le c s i
+  obtain ⟨w1, w2, _⟩ := writeCount_le hi hI.lvl
+  have hlv := hI.lvl
+  have hcap := h.cap_pos
+  by_cases hlt : j < s.level - readCount c s i
+  · rw [if_pos hlt]
+    have e : (lin c s.ridx + (readCount c s i + j)) % c.cap
+        = (lin c s.widx + (c.cap - s.level + readCount c s i + j)) % c.cap := by
+      rw [hI.ptr, Nat.mod_add_mod]
+      have : lin c s.ridx + s.level + (c.cap - s.level + readCount c s i + j)
+          = lin c s.ridx + (readCount c s i + j) + c.cap := by omega
+      rw [this, Nat.add_mod_right]
+    rw [e, cellLin_memAfter h hi hI.widx hI.shape (by omega), if_neg (by omega)]
+  · rw [if_neg hlt]
+    have e : (lin c s.ridx + (readCount c s i + j)) % c.cap
+        = (lin c s.widx + (j - (s.level - readCount c s i))) % c.cap := by
+      rw [hI.ptr, Nat.mod_add_mod]
+      congr 1; omega
+    rw [e, cellLin_memAfter h hi hI.widx hI.shape (by omega), if_pos (by omega)]
+
+theorem step_abs {c : Cfg} (h : c.WF) {s : State} {i : In} (hI : Inv c s) (hi : i.WF c) :
+    abs c (step c s i).1 =
+      if i.clear then [] else (abs c s).drop (readCount c s i) ++ i.wdata.take (writeCount c s i) := by
+  by_cases hc : i.clear = true
+  · rw [step_clear hc, if_pos hc]; simp [abs]
+  · have hc' : i.clear = false := by simpa using hc
+    rw [if_neg hc]
+    obtain ⟨r1, r2⟩ := readCount_le c s i
+    obtain ⟨w1, w2, w3⟩ := writeCount_le hi hI.lvl
+    have hlv := hI.lvl
+    have hrw := c.rw_le_cols
+    have hb := lt_two_pow_bitsFor c.cap
+    obtain ⟨_, rl⟩ := lin_incrRowCol h hI.ridx (n := readCount c s i) (by omega)
+    have hlev : (s.level - readCount c s i + writeCount c s i) % 2 ^ lvlBits c
+        = s.level - readCount c s i + writeCount c s i := Nat.mod_eq_of_lt (by unfold lvlBits; omega)
+    rw [step_noclear hc']
+    unfold abs
+    simp only [hlev]
+    rw [nextRidx_eq i hI.ridx.2, rl]
+    apply List.ext_getElem?
+    intro j
+    rw [List.getElem?_map, List.getElem?_append, List.getElem?_drop, List.getElem?_take]
+    simp only [List.length_drop, List.length_map, List.length_range]
+    by_cases hj : j < s.level - readCount c s i + writeCount c s i
+    · rw [List.getElem?_range hj]
+      simp only [Option.map_some]
+      rw [Nat.mod_add_mod, Nat.add_assoc, cell_next h hI hi hj]
+      split
+      · rw [List.getElem?_map, List.getElem?_range (by omega)]; rfl
+      · rw [if_pos (by omega), List.getD_eq_getElem?_getD, List.getElem?_eq_getElem (by omega)]; rfl
+    · have : (List.range (s.level - readCount c s i + writeCount c s i))[j]? = none := by
+        rw [List.getElem?_eq_none_iff]; simp; omega
+      rw [this, if_neg (by omega), if_neg (by omega)]; rfl
+
+/-! ### the specification side -/
+
+/-- the elements a `read`/`peek` result stands for: the first `count` data words -/
+def RRes.elems (r : RRes) : List Nat := r.data.take r.count
+
+/-- what a cycle's outputs say in terms of the queue specification -/
+def Out.abs (o : Out) : Spec.Out :=
+  { read := o.read.map RRes.elems, peek := o.peek.map RRes.elems, write := o.write, clear := o.clear }
+
+theorem spec_writeRuns {c : Cfg} (h : c.WF) {s : State} (hI : Inv c s) (i : In) :
+    Spec.writeRuns c (abs c s) i = writeRuns c s i := by
+  unfold Spec.writeRuns writeRuns writeReady writeValid Spec.remaining
+  rw [remaining_eq hI.lvl, abs_length, h.cap_eq]
+
+theorem spec_readN (c : Cfg) (s : State) (i : In) : Spec.readN c (abs c s) i = readCount c s i := by
+  rw [readCount_eq]
+  unfold Spec.readN
+  cases i.read <;> simp
+
+theorem spec_written {c : Cfg} (h : c.WF) {s : State} (hI : Inv c s) (i : In) :
+    Spec.written c (abs c s) i = i.wdata.take (writeCount c s i) := by
+  unfold Spec.written In.wdata writeCount
+  rw [spec_writeRuns h hI]
+  cases hw : i.write with
+  | none => simp
+  | some a =>
+    simp only
+    by_cases hr : writeRuns c s i = true
+    · simp [hr]
+    · simp [hr]
+
+theorem spec_step_state {c : Cfg} (h : c.WF) {s : State} (hI : Inv c s) (i : In) :
+    (Spec.step c (abs c s) i).1 =
+      if i.clear then [] else (abs c s).drop (readCount c s i) ++ i.wdata.take (writeCount c s i) := by
+  unfold Spec.step
+  simp only [spec_readN, spec_written h hI]
+
+theorem isEmpty_abs (c : Cfg) (s : State) : (abs c s).isEmpty = (s.level == 0) := by
+  have := abs_length c s
+  cases hq : abs c s <;> rw [hq] at this <;> simp at this <;> simp [← this]
+
+theorem step_out {c : Cfg} (h : c.WF) {s : State} {i : In} (hI : Inv c s) :
+    (step c s i).2.abs = (Spec.step c (abs c s) i).2 := by
+  have hr : (step c s i).2.abs.read = (Spec.step c (abs c s) i).2.read := by
+    simp only [step, Spec.step, Out.abs, spec_readN]
+    unfold readRuns readReady
+    by_cases h0 : s.level = 0
+    · simp [h0, isEmpty_abs]
+    · have hl : 0 < s.level := by omega
+      obtain ⟨r1, r2⟩ := readCount_le c s i
+      cases hrd : i.read with
+      | none => simp
+      | some n => simp [h0, isEmpty_abs, RRes.elems, head_take h hI r1 r2]
+  have hp : (step c s i).2.abs.peek = (Spec.step c (abs c s) i).2.peek := by
+    simp only [step, Spec.step, Out.abs]
+    unfold peekRuns peekReady
+    by_cases h0 : s.level = 0
+    · simp [h0, isEmpty_abs]
+    · have hl : 0 < s.level := by omega
+      cases hpk : i.peek with
+      | false => simp
+      | true =>
+        have e : (head c s).take (readAvail c s) = (abs c s).take c.rw := by
+          unfold readAvail
+          split
+          · rw [head_take h hI (by omega) (Nat.le_refl _)]
+          · rw [head_take h hI (Nat.le_refl _) (by omega)]
+            rw [List.take_of_length_le (by simp), List.take_of_length_le (by simp; omega)]
+        simp [h0, isEmpty_abs, RRes.elems, e]
+  have hw : (step c s i).2.abs.write = (Spec.step c (abs c s) i).2.write := by
+    simp only [step, Spec.step, Out.abs, spec_writeRuns h hI]
+  have hcl : (step c s i).2.abs.clear = (Spec.step c (abs c s) i).2.clear := by
+    simp only [step, Spec.step, Out.abs]
+  cases h1 : (step c s i).2.abs
+  cases h2 : (Spec.step c (abs c s) i).2
+  rw [h1, h2] at hr hp hw hcl
+  simp only at hr hp hw hcl
+  rw [hr, hp, hw, hcl]
+
+/-! ### histories -/
+
+theorem run_refines {c : Cfg} (h : c.WF) (is : List In) :
+    ∀ {s : State}, Inv c s → (∀ i ∈ is, i.WF c) →
+      Inv c (run c s is).1 ∧
+      abs c (run c s is).1 = (Spec.run c (abs c s) is).1 ∧
+      (run c s is).2.map Out.abs = (Spec.run c (abs c s) is).2 := by
+  induction is with
+  | nil => intro s hI _; exact ⟨hI, rfl, rfl⟩
+  | cons i is ih =>
+    intro s hI hwf
+    have hi : i.WF c := hwf i (by simp)
+    have hI' := step_inv h hI hi
+    have habs : abs c (step c s i).1 = (Spec.step c (abs c s) i).1 := by
+      rw [step_abs h hI hi, spec_step_state h hI]
+    obtain ⟨a, b, d⟩ := ih hI' (fun x hx => hwf x (by simp [hx]))
+    simp only [run, Spec.run]
+    rw [← habs, ← step_out h hI]
+    exact ⟨a, b, by simp [d]⟩
+
+/-! ### reachable states, decidable input check, queue order at the level of the specification -/
+
+/-- states the component can be in: reached from reset by a history of well-formed inputs -/
+def Reachable (c : Cfg) (s : State) : Prop :=
+  ∃ is : List In, (∀ i ∈ is, i.WF c) ∧ s = (run c (init c) is).1
+
+theorem Reachable.inv {c : Cfg} (h : c.WF) {s : State} (hs : Reachable c s) : Inv c s := by
+  obtain ⟨is, hwf, rfl⟩ := hs
+  exact (run_refines h is (inv_init h) hwf).1
+
+theorem run_append (c : Cfg) (s : State) (is js : List In) :
+    (run c s (is ++ js)).1 = (run c (run c s is).1 js).1 := by
+  induction is generalizing s with
+  | nil => rfl
+  | cons i is ih => simp only [List.cons_append, run]; exact ih _
+
+theorem Reachable.step {c : Cfg} {s : State} (hs : Reachable c s) {i : In} (hi : i.WF c) :
+    Reachable c (step c s i).1 := by
+  obtain ⟨is, hwf, rfl⟩ := hs
+  refine ⟨is ++ [i], ?_, ?_⟩
+  · intro x hx
+    rcases List.mem_append.1 hx with hx | hx
+    · exact hwf x hx
+    · simp at hx; subst hx; exact hi
+  · rw [run_append]; rfl
+
+/-- executable form of `In.WF` -/
+def In.wfb (c : Cfg) (i : In) : Bool :=
+  match i.write with
+  | some a => a.data.length == c.ww && decide (a.count ≤ c.ww) && (!c.useMax || decide (a.count ≤ a.maxCount))
+  | none => true
+
+theorem In.WF_of_wfb {c : Cfg} {i : In} (h : i.wfb c = true) : i.WF c := by
+  intro a ha
+  unfold In.wfb at h
+  rw [ha] at h
+  simp only [Bool.and_eq_true, beq_iff_eq, decide_eq_true_eq, Bool.or_eq_true, Bool.not_eq_true'] at h
+  refine ⟨h.1.1, h.1.2, ?_⟩
+  intro hm
+  rcases h.2 with h2 | h2
+  · rw [hm] at h2; cases h2
+  · exact h2
+
+namespace Spec
+
+/-- all elements returned by the executed reads of a history, in order -/
+def reads : List Out → List Nat
+  | [] => []
+  | o :: os => o.read.getD [] ++ reads os
+
+/-- all elements appended by the executed writes of a history, in order -/
+def writes (c : Cfg) (q : List Nat) : List In → List Nat
+  | [] => []
+  | i :: is => written c q i ++ writes c (step c q i).1 is
+
+/-- first in, first out: without `clear`, what was queued followed by what was written comes out in the same
+    order — the elements read so far followed by the elements still queued -/
+theorem fifo_order (c : Cfg) (is : List In) :
+    ∀ q : List Nat, (∀ i ∈ is, i.clear = false) →
+      reads (run c q is).2 ++ (run c q is).1 = q ++ writes c q is := by
+  induction is with
+  | nil => intro q _; simp [run, reads, writes]
+  | cons i is ih =>
+    intro q hc
+    have hci : i.clear = false := hc i (by simp)
+    have ih' := ih (step c q i).1 (fun x hx => hc x (by simp [hx]))
+    simp only [run, reads, writes]
+    rw [List.append_assoc, ih']
+    have hq : (step c q i).1 = q.drop (readN c q i) ++ written c q i := by simp [step, hci]
+    rw [hq]
+    have hrd : (step c q i).2.read.getD [] = q.take (readN c q i) := by
+      simp only [step]
+      split
+      · rfl
+      · rename_i hne
+        simp only [Bool.and_eq_true, Bool.not_eq_true', not_and, Bool.not_eq_false] at hne
+        unfold readN
+        cases hr : i.read with
+        | none => simp
+        | some n =>
+          have := hne (by simp [hr])
+          simp at this
+          simp [this]
+    rw [hrd]
+    simp only [← List.append_assoc, List.take_append_drop]
+
+end Spec
+
 end TxV.WideFifo
